@@ -693,6 +693,187 @@ func genWide(r *hx.Rng, sc *scenario) *gcond {
 	return c
 }
 
+// chain: a conjunction of 1..7 atoms (mostly tag equalities, consistent with each other, other
+// atoms in between) ANDed with a disjunction of 2..3 alternatives on a shard-key tag, the
+// disjunction on either side and anywhere in the chain. The tag groups of such a condition are
+// built by repeated appends onto the same left-hand group, which is where slice aliasing shows.
+func genChain(r *hx.Rng, sc *scenario) *gcond {
+	fixed := map[string]string{}
+	eq := func(t string) *gcond {
+		v, ok := fixed[t]
+		if !ok {
+			v = valPool[r.Intn(5)]
+			fixed[t] = v
+		}
+		return &gcond{kind: 'a', text: t + " = " + quote(v)}
+	}
+	alt := sc.tags[r.Intn(len(sc.tags))]
+	if len(sc.key) > 0 && r.Chance(85) {
+		alt = sc.key[r.Intn(len(sc.key))]
+	}
+	var others []string
+	for _, t := range sc.tags {
+		if t != alt {
+			others = append(others, t)
+		}
+	}
+	n := 1 + r.Intn(7)
+	var atoms []*gcond
+	for i := 0; i < n; i++ {
+		switch {
+		case len(others) == 0 || r.Chance(12):
+			atoms = append(atoms, &gcond{kind: 'a', text: []string{"usage >= 0", "cnt >= 0", "usage < 100"}[r.Intn(3)]})
+		default:
+			atoms = append(atoms, eq(others[r.Intn(len(others))]))
+		}
+	}
+	nalt := 2 + r.Intn(2)
+	vals := subset(r, valPool[:5], nalt)
+	var or *gcond
+	for _, v := range vals {
+		a := &gcond{kind: 'a', text: alt + " = " + quote(v)}
+		if or == nil {
+			or = a
+		} else {
+			or = &gcond{kind: '|', l: or, r: a}
+		}
+	}
+	or.par = true
+	pos := n // where the disjunction goes: mostly last
+	if r.Chance(30) {
+		pos = r.Intn(n + 1)
+	}
+	var c *gcond
+	add := func(x *gcond) {
+		if c == nil {
+			c = x
+		} else {
+			c = &gcond{kind: '&', l: c, r: x}
+		}
+	}
+	for i := 0; i <= n; i++ {
+		if i == pos {
+			add(or)
+		}
+		if i < n {
+			add(atoms[i])
+		}
+	}
+	return c
+}
+
+// ---------------------------------------------------------------------------------------
+// witness points: one satisfying tag assignment per disjunct of the condition's DNF
+
+type datom struct {
+	tagEq    bool
+	key, val string
+}
+
+const maxDNF = 64
+
+// dnf of the parsed condition; nil means "too large" (no witnesses are derived).
+func (sc *scenario) dnf(e influxql.Expr) [][]datom {
+	switch x := e.(type) {
+	case *influxql.ParenExpr:
+		return sc.dnf(x.Expr)
+	case *influxql.BinaryExpr:
+		switch x.Op {
+		case influxql.AND, influxql.OR:
+			l, r := sc.dnf(x.LHS), sc.dnf(x.RHS)
+			if l == nil || r == nil {
+				return nil
+			}
+			if x.Op == influxql.OR {
+				if len(l)+len(r) > maxDNF {
+					return nil
+				}
+				return append(append([][]datom{}, l...), r...)
+			}
+			if len(l)*len(r) > maxDNF {
+				return nil
+			}
+			var out [][]datom
+			for _, a := range l {
+				for _, b := range r {
+					out = append(out, append(append([]datom{}, a...), b...))
+				}
+			}
+			return out
+		case influxql.EQ:
+			if k, ok := x.LHS.(*influxql.VarRef); ok {
+				if v, ok := x.RHS.(*influxql.StringLiteral); ok && strings.ToLower(k.Val) != "time" {
+					for _, t := range sc.tags {
+						if t == k.Val {
+							return [][]datom{{{tagEq: true, key: k.Val, val: v.Val}}}
+						}
+					}
+				}
+			}
+		}
+	}
+	return [][]datom{{{}}}
+}
+
+// witnesses builds, for every disjunct, a point that carries the disjunct's tag equalities and
+// every other schema tag (so all shard-key tags are present), at a timestamp of the range that
+// a live group covers; field values and free tags are retried a few times until the real
+// condition evaluates to true on the point.
+func (sc *scenario) witnesses(r *hx.Rng, expr influxql.Expr, tmin, tmax int64) []*point {
+	if expr == nil {
+		return nil
+	}
+	ds := sc.dnf(expr)
+	var ts []int64
+	for _, t := range sc.times {
+		if t >= tmin && t <= tmax && sc.rpi.ShardGroupByTimestampAndEngineType(time.Unix(0, t), config.TSSTORE) != nil {
+			ts = append(ts, t)
+		}
+	}
+	if len(ts) == 0 {
+		return nil
+	}
+	var out []*point
+	for _, d := range ds {
+		want := map[string]string{}
+		ok := true
+		for _, a := range d {
+			if a.tagEq {
+				if v, dup := want[a.key]; dup && v != a.val {
+					ok = false
+				}
+				want[a.key] = a.val
+			}
+		}
+		if !ok || len(want) == 0 {
+			continue
+		}
+		var first *point
+		for try := 0; try < 6; try++ {
+			p := &point{t: ts[r.Intn(len(ts))], hasU: true}
+			for _, t := range sc.tags {
+				v, fix := want[t]
+				if !fix {
+					v = valPool[r.Intn(5)]
+				}
+				p.tags = append(p.tags, influx.Tag{Key: t, Value: v})
+			}
+			p.usage = []float64{0, 1, 2.5, 7}[r.Intn(4)]
+			p.cnt = int64(r.Intn(6))
+			p.msg = []string{"hi", "lo", "a"}[r.Intn(3)]
+			if first == nil {
+				first = p
+			}
+			if sat, evok := sc.eval(expr, p); evok && sat {
+				first = p
+				break
+			}
+		}
+		out = append(out, first)
+	}
+	return out
+}
+
 func parseCond(text string, yacc bool) (influxql.Expr, error) {
 	if !yacc {
 		p := influxql.NewParser(strings.NewReader(text))
@@ -898,8 +1079,11 @@ type gs struct {
 
 func (sc *scenario) runCond(c *hx.Ctx, r *hx.Rng) {
 	var gc *gcond
-	if r.Chance(6) {
+	if k := r.Intn(100); k < 6 {
 		gc = genWide(r, sc)
+	} else if k < 16 {
+		gc = genChain(r, sc)
+		c.Count("cond:shape-chain")
 	} else {
 		gc = genCond(r, sc, 1+r.Intn(4))
 	}
@@ -936,6 +1120,14 @@ func (sc *scenario) runCond(c *hx.Ctx, r *hx.Rng) {
 		c.Count("skipped:more-than-12-equalities")
 		return
 	}
+	// witness points derived from the condition itself (one per DNF disjunct), routed by the
+	// real write path like every other point
+	wit := sc.witnesses(r, expr, tmin, tmax)
+	for _, p := range wit {
+		sc.runPoint(c, p)
+		c.Count("point:witness")
+	}
+	sc.points = append(sc.points, wit...) // later conditions of the scenario see them too
 	// implementation: mapMstShards
 	var parts []string
 	consulted := map[gs]bool{}
@@ -1000,7 +1192,8 @@ func (sc *scenario) runCond(c *hx.Ctx, r *hx.Rng) {
 	}
 	// spec diff: brute force over the scenario's points
 	evaluable, matched := true, 0
-	for _, p := range sc.points {
+	for i := len(sc.points) - 1; i >= 0; i-- { // the condition's own witnesses first
+		p := sc.points[i]
 		if !p.routed || p.t < tmin || p.t > tmax {
 			continue
 		}
@@ -1053,8 +1246,10 @@ func Run(c *hx.Ctx) error {
 		"1-5 shard groups of 1h..7d with gaps, deleted / truncated / overlapping groups, per-measurement shard lists) x points " +
 		"(timestamps on and next to every group boundary, missing / duplicate tags) x condition trees to depth 4 parsed by both " +
 		"influxql parsers (tag =, !=, regex, ordering, reversed and tag=tag equalities, float/int/string field comparisons, time " +
-		"bounds, AND/OR/parentheses, wide AND-of-OR), raw or split by ConditionExpr. n counts conditions; each is checked against " +
-		"every point of its scenario. A condition is non-trivial when it pruned at least one alive shard and has an OR or a " +
+		"bounds, AND/OR/parentheses, wide AND-of-OR, chains of 1-7 conjuncts ANDed with a disjunction of shard-key alternatives), " +
+		"raw or split by ConditionExpr. n counts conditions; each is checked against every point of its scenario plus witness " +
+		"points derived from the condition itself: one per disjunct of its DNF, carrying that disjunct's tag equalities and every " +
+		"other schema tag, routed by the real write path. A condition is non-trivial when it pruned at least one alive shard and has an OR or a " +
 		"non-tag operand; a point when its timestamp is within 1ns of a group boundary."
 	n := c.Budget(40000, 2000000)
 	r := hx.NewRng(c.Seed)
